@@ -374,6 +374,17 @@ def r5d_siblings(ctx):
     ref = {}
     for s in by_fn[core.id]:
         ref.setdefault(stage_of(s), s)
+    # pytest uses the LAST definition of a name redefined in one file: the cascade's same-file stage must take the
+    # maximum by line
+    sf = ref.get("same-file")
+    if sf is None:
+        r.anchor_missing("same-file stage of the cascade", "no selection site pinned to the request path")
+    elif sf.selector in ("max_by_key", "max_by") and (sf.key_field or "") == "line":
+        r.ok(sample={"same_file_stage": "max_by_key(line)"})
+    else:
+        r.violate("R5d|%s|same-file stage is %s(%s)" % (core.id, sf.selector, sf.key_field),
+                  "the same-file stage of the navigation cascade selects with %s(%s); pytest binds the last definition "
+                  "(maximum line) of a name redefined in one file" % (sf.selector, sf.key_field))
     for fid in sorted(sibs):
         for s in by_fn[fid]:
             st = stage_of(s)
@@ -420,4 +431,24 @@ def r4c_order_sensitive(ctx):
             r.violate(key, "order-sensitive selection `%s` in %s at %s is not pinned to one file: with two candidates the answer "
                            "depends on which file was analysed first" % (s.descr(), s.fn.id, ctx.bin.span_str(s.span)))
     r.floor("order-sensitive selection sites", n, 15)
+    return r
+
+
+def r5e_same_file_last(ctx):
+    r = Result("R5e", "the same-file stage of the navigation cascade takes the maximum by `line` (pytest binds the last "
+                      "definition of a name redefined in one file)")
+    core = resolver_core(ctx)
+    if core is None:
+        r.anchor_missing("resolver core", "not found")
+        return r
+    sf = [s for s in _def_sites(ctx) if s.fn.id == core.id and stage_of(s) == "same-file"]
+    if len(sf) != 1:
+        r.anchor_missing("same-file stage", "found %d selection sites pinned to the request path" % len(sf))
+        return r
+    sf = sf[0]
+    if sf.selector in ("max_by_key", "max_by") and (sf.key_field or "") == "line":
+        r.ok(sample={"same_file_stage": "max_by_key(line)", "at": ctx.bin.span_str(sf.span)})
+    else:
+        r.violate("R5e|%s|same-file stage is %s(%s)" % (core.id, sf.selector, sf.key_field),
+                  "same-file stage selects with %s(%s) instead of the maximum by line" % (sf.selector, sf.key_field))
     return r
